@@ -59,16 +59,18 @@ func main() {
 			wAlpha = []int{1, 2, 3}
 		}
 		nRand := c.Pick(64, 1024)
+		seqDepth := c.Pick(5, 7)
 		c.Rule = fmt.Sprintf("(a) real coordinator with stub hasher: group size g in 1..4 x eligible size n in [g,g+%d] x weight vectors over %v^n "+
 			"(WithRater + stub ChanceComputer; the all-ones vector also on the plain coordinator) x target {shard 0, metachain} x every index sequence "+
 			"(one free choice in [0, L-removed) per selection step, even choices returned as-is, odd ones plus a huge multiple of the modulus; "+
 			"GetConsensusValidatorsPublicKeys additionally called for n <= g+2); "+
 			"(b) real blake2b%s hasher: 2 layouts x {plain, WithRater} x %d randomness values x rounds {0,1,2^63} x shards {0,1,meta} x epochs {0,1}, "+
 			"coordinators A (LRU 25000), A' (independent, LRU 25000), B (LRU size 1), each input queried repeatedly, epoch 0 also before the epoch change. "+
+			"(c) every sequence of <= %d operations from {Prepare(1,seed a), Prepare(1,seed b), Action(1), Prepare(2), Action(2), query-all} applied in lockstep to a coordinator with a real LRU group cache and to one whose cache never hits, 2 layouts x {plain, WithRater}: after each sequence every (3 randomness values x shard x configured epoch) query gives a well-formed group drawn from the eligible list the coordinator reports for that epoch, identical on both coordinators. "+
 			"non-trivial = (a) (g,n,weights) with an index sequence where a reduced index lands at/after an already removed range (adjustIndex skips >=1 entry); "+
-			"(b) (layout,variant,shard,epoch) cells with >=2 distinct groups",
-			maxExtra, wAlpha, map[bool]string{true: "", false: " and sha256"}[c.Quick()], nRand)
-		c.Bound = fmt.Sprintf("g<=4, n<=g+%d, weights %v, expanded list <= %d; %d randomness values", maxExtra, wAlpha, (4+maxExtra)*wAlpha[len(wAlpha)-1], nRand)
+			"(b) (layout,variant,shard,epoch) cells with >=2 distinct groups; (c) sequences that fill the cache and afterwards prepare an already prepared epoch again",
+			maxExtra, wAlpha, map[bool]string{true: "", false: " and sha256"}[c.Quick()], nRand, seqDepth)
+		c.Bound = fmt.Sprintf("g<=4, n<=g+%d, weights %v, expanded list <= %d; %d randomness values; operation sequences of depth <= %d", maxExtra, wAlpha, (4+maxExtra)*wAlpha[len(wAlpha)-1], nRand, seqDepth)
 		c.Assumptions = []string{
 			"(a) treats the hasher as an arbitrary function of the selection pre-image (memoised per execution, so repeated calls see the same function); the cache is the repo's no-op cache mock there",
 			"'known to the nodes coordinator' = epoch with a stored configuration and shard < nbShards or metachain; other inputs only have to fail on every coordinator alike (counted, not judged)",
@@ -84,7 +86,9 @@ func main() {
 		runCore(c, maxExtra, wAlpha)
 		t1 := time.Now()
 		runEndToEnd(c, nRand)
-		fmt.Fprintf(os.Stderr, "c15: core %.1fs, end-to-end %.1fs\n", t1.Sub(t0).Seconds(), time.Since(t1).Seconds())
+		t2 := time.Now()
+		runSequences(c, seqDepth)
+		fmt.Fprintf(os.Stderr, "c15: core %.1fs, end-to-end %.1fs, sequences %.1fs\n", t1.Sub(t0).Seconds(), t2.Sub(t1).Seconds(), time.Since(t2).Seconds())
 		runtime.KeepAlive(ballast)
 	})
 }
@@ -479,11 +483,17 @@ type query struct {
 	epoch uint32
 }
 
+var layoutsHasher hashing.Hasher = blake2b.NewBlake2b()
+
 func (t e2eTask) build(c *mc.Ctx, cacheSize int) coord {
 	cache, err := lrucache.NewCache(cacheSize)
 	if err != nil {
 		c.Fatal("lru: %v", err)
 	}
+	return t.buildWith(c, cache)
+}
+
+func (t e2eTask) buildWith(c *mc.Ctx, cache sharding.Cacher) coord {
 	mk := func(s uint32, kind string, n int) []vspec {
 		l := make([]vspec, n)
 		for i := range l {
